@@ -15,7 +15,7 @@ from mc.core.runner import REPO
 
 CONFIG_TEMPLATE = '''grammar: data/grammar.lark
 template_dirs:
-  - data/cpp/template
+{tpl}  - data/cpp/template
 trans_mapping: data/i18n.yml
 input_globs:
 {globs}
@@ -48,17 +48,25 @@ class Workspace:
         self.root = root
 
     @classmethod
-    def create(cls, root: str, input_globs=('proj/*.py',), output_dirs=('out/',), cache_enabled=True) -> 'Workspace':
+    def create(cls, root: str, input_globs=('proj/*.py',), output_dirs=('out/',), cache_enabled=True, template_override=False) -> 'Workspace':
         os.makedirs(os.path.join(root, 'proj'), exist_ok=True)
         if not os.path.lexists(os.path.join(root, 'data')):
             os.symlink(os.path.join(REPO, 'data'), os.path.join(root, 'data'))
         ws = cls(root)
+        if template_override:
+            # a project template directory in front of the stock one: the list type template announces its header
+            # through the documented emit_depends helper (no stock template does)
+            os.makedirs(os.path.join(root, 'tpl', 'type'), exist_ok=True)
+            with open(os.path.join(root, 'tpl', 'type', 'list_type.j2'), 'w') as f:
+                f.write("{{- emit_depends('<vector>') -}}{{ i18n('classes', 'list') }}<{{ value_type }}>")
+            os.utime(os.path.join(root, 'tpl', 'type', 'list_type.j2'), (BASE_MTIME, BASE_MTIME))
         ws.write_config(input_globs, output_dirs, cache_enabled)
         return ws
 
     def write_config(self, input_globs, output_dirs, cache_enabled=True, name='config.yml') -> None:
         di = '' if cache_enabled else 'di:\n  rogw.tranp.cache.cache.CacheSetting: mc.tranp.workspace.cache_disabled\n'
-        text = CONFIG_TEMPLATE.format(globs='\n'.join(f'  - {g}' for g in input_globs), outs='\n'.join(f'  - {o}' for o in output_dirs), di=di)
+        tpl = '  - tpl\n' if os.path.isdir(os.path.join(self.root, 'tpl')) else ''
+        text = CONFIG_TEMPLATE.format(tpl=tpl, globs='\n'.join(f'  - {g}' for g in input_globs), outs='\n'.join(f'  - {o}' for o in output_dirs), di=di)
         with open(os.path.join(self.root, name), 'w') as f:
             f.write(text)
         os.utime(os.path.join(self.root, name), (BASE_MTIME, BASE_MTIME))
